@@ -140,20 +140,23 @@ type plan struct {
 // Number of picked write histories (each is built under both configurations) per tier.
 const (
 	quickHistories    = 12
-	thoroughHistories = 48
+	thoroughHistories = 32
 )
+
+// limits of the quick alphabet
+var quickLimits = []string{"a@2", "b", "c"}
 
 func plans(thorough bool) []plan {
 	nHand := len(handShapes) * len(stateConfigs)
-	d3 := alphabet(probes, probes, probes, "ordered", 4, 3)
 	if !thorough {
-		return []plan{{"d3", d3, 3, nHand + 2*quickHistories}}
+		return []plan{{"d3", alphabet(probes, probes, quickLimits, "ordered", 4, 3), 3, nHand + 2*quickHistories}}
 	}
+	d3 := alphabet(probes, probes, probes, "ordered", 4, 3)
 	wide := append(append([]string{}, probes...), probesExtra...)
 	return []plan{
 		{"d3", d3, 3, nHand + 2*thoroughHistories},
-		{"d3-wide", alphabet(wide, wide, probes, "all", 4, 3), 3, nHand + 2*quickHistories},
-		{"d4-core", alphabet(probes, []string{"a@2", "b@2", "c"}, []string{"a@2", "b@2"}, "few", 2, 1), 4, nHand + 2*28},
+		{"d3-wide", alphabet(wide, wide, probes, "all", 4, 3), 3, nHand + 2*4},
+		{"d4-core", alphabet(probes, []string{"a@2", "b@2", "c"}, []string{"a@2", "b@2"}, "few", 2, 1), 4, nHand + 2*16},
 	}
 }
 
